@@ -648,6 +648,7 @@ void ApiRun::op_iter_next(const Op &o) {
     }
     iter_fault_hit = false;
     int rc = CALLI("cif_pktitr_next_packet", cif_pktitr_next_packet(hi.it, o.pk_mode == 0 ? NULL : &pk));
+    if (RELAX_FAULT(rc)) { ev("iterator call -> %s under a storage fault: the iterator is abandoned", rc_name(rc)); g_stats.inc("iter.storage_fault"); iter_fault_hit = true; }
     cover(o.k, rc, hmix((uint64_t) hi.state, hmix((uint64_t) o.pk_mode, std::min<long>(remaining, 2))));
     std::unique_ptr<Violation> bad;
     try {
@@ -687,6 +688,7 @@ void ApiRun::op_iter_update(const Op &o) {
     build_packet(o, l, pk, foreign, empty);
     iter_fault_hit = false;
     int rc = CALLI("cif_pktitr_update_packet", cif_pktitr_update_packet(hi.it, pk.p));
+    if (RELAX_FAULT(rc)) { ev("iterator call -> %s under a storage fault: the iterator is abandoned", rc_name(rc)); g_stats.inc("iter.storage_fault"); iter_fault_hit = true; }
     cover(o.k, rc, hmix((uint64_t) hi.state, (uint64_t) o.pk_mode * 4 + (uint64_t) o.pos + (hi.cur_valid ? 16 : 0)));
     std::unique_ptr<Violation> bad;
     try {
@@ -708,6 +710,7 @@ void ApiRun::op_iter_remove(const Op &o) {
     if (hi.cur_unknown) SKIP("current packet was delivered through next(NULL)");
     iter_fault_hit = false;
     int rc = CALLI("cif_pktitr_remove_packet", cif_pktitr_remove_packet(hi.it));
+    if (RELAX_FAULT(rc)) { ev("iterator call -> %s under a storage fault: the iterator is abandoned", rc_name(rc)); g_stats.inc("iter.storage_fault"); iter_fault_hit = true; }
     cover(o.k, rc, hmix((uint64_t) hi.state, hi.cur_valid ? 1 : 0));
     if (iter_fault_hit) { Op e = o; op_iter_end(e, true, true); return; }
     if (!hi.cur_valid) expect_rc("cif_pktitr_remove_packet", rc, {CIF_MISUSE});
